@@ -66,19 +66,18 @@ Section Safe.
     (is_nil (t_status t) || status_ok (fs s) t)
     && (str_eq_opt (rec_of s t) (Hx (task_fp t (fs s))) && gens_exist (fs s) t).
 
-  Lemma uptodate_safe : forall dry now s t,
+  Lemma uptodate_safe : forall now s t,
     t_sources t <> [] ->
-    uptodate v dry now s t = (up_formula s t, s).
+    uptodate v true now s t = (up_formula s t, s).
   Proof.
-    intros dry now s t Hsrc.
-    assert (Hq : dry || v_safe v = true) by (rewrite Hsafe; apply orb_true_r).
-    pose proof (uptodate_quiet matchb H Hx v dry now s t Hq) as Est.
-    destruct (uptodate v dry now s t) as [b s'] eqn:E. cbn in Est. subst s'. f_equal.
+    intros now s t Hsrc.
+    pose proof (uptodate_quiet matchb H Hx v now s t) as Est.
+    destruct (uptodate v true now s t) as [b s'] eqn:E. cbn in Est. subst s'. f_equal.
     unfold Model.uptodate in E.
     assert (Hnn : negb (is_nil (t_sources t)) = true) by (destruct (t_sources t); [congruence|reflexivity]).
     rewrite Hnn in E.
     unfold up_formula, rec_of, Model.task_fp, fp_of.
-    assert (Hsrc' : fst (check_sources matchb H Hx v dry now s t) =
+    assert (Hsrc' : fst (check_sources matchb H Hx v true now s t) =
                     str_eq_opt (match t_method t with
                                 | Checksum => lookup (cs_key t) (cks s)
                                 | Timestamp => lookup (ts_key t) (tsx s)
@@ -91,28 +90,13 @@ Section Safe.
       - unfold check_checksum, dg. rewrite Hfp. reflexivity.
       - rewrite Hts. unfold check_timestamp_exact. reflexivity.
       - reflexivity. }
-    destruct (check_sources matchb H Hx v dry now s t) as [src s1]. cbn [fst] in Hsrc'. subst src.
+    destruct (check_sources matchb H Hx v true now s t) as [src s1]. cbn [fst] in Hsrc'. subst src.
     inversion E; subst b. clear E.
     destruct (is_nil (t_status t)); cbn [negb andb orb]; [reflexivity|].
     now destruct (status_ok (fs s) t).
   Qed.
 
   (* ---- effect of the three record operations ---- *)
-
-  Lemma rec_invalidate_same : forall s t, rec_of (invalidate v s t) t = None.
-  Proof.
-    intros s t. unfold rec_of, invalidate. destruct (t_method t); auto.
-    - cbn. apply lookup_remove_eq.
-    - rewrite Hts. cbn. apply lookup_remove_eq.
-  Qed.
-
-  Lemma rec_invalidate_other : forall s t t', rkey t <> rkey t' -> rec_of (invalidate v s t) t' = rec_of s t'.
-  Proof.
-    intros s t t' Hk. unfold rec_of, invalidate, rkey in *.
-    destruct (t_method t), (t_method t'); try rewrite Hts; cbn; auto.
-    - apply lookup_remove_neq. congruence.
-    - apply lookup_remove_neq. congruence.
-  Qed.
 
   Lemma rec_on_error_same : forall s t, t_sources t <> [] -> rec_of (on_error v s t) t = None.
   Proof.
@@ -129,6 +113,12 @@ Section Safe.
     - destruct (is_nil (t_sources t)); cbn; auto. apply lookup_remove_neq. congruence.
     - cbn. apply lookup_remove_neq. congruence.
   Qed.
+
+  Lemma rec_invalidate_same : forall s t, t_sources t <> [] -> rec_of (invalidate v s t) t = None.
+  Proof. intros. unfold invalidate. now apply rec_on_error_same. Qed.
+
+  Lemma rec_invalidate_other : forall s t t', rkey t <> rkey t' -> rec_of (invalidate v s t) t' = rec_of s t'.
+  Proof. intros. unfold invalidate. now apply rec_on_error_other. Qed.
 
   Lemma rec_record_same : forall now f0 s t, t_method t <> NoMethod ->
     rec_of (record matchb H Hx v now f0 s t) t = Some (Hx (task_fp t f0)).
@@ -164,21 +154,23 @@ Section Safe.
             (forall t', rkey t <> rkey t' -> rec_of s' t' = rec_of s t') ->
             run_summary s m t s' r.
 
-  Lemma run_cmds_summary : forall now f0 rok s tid t o s' r,
+  Lemma run_cmds_summary : forall now f0 force s tid t o s' r,
     t_sources t <> [] -> t_method t <> NoMethod ->
     rec_of s t = None ->
-    run_cmds matchb H Hx v now f0 rok s tid t o = (s', r) ->
+    run_cmds matchb H Hx v now f0 force s tid t o = (s', r) ->
     ((r = RFailed \/ r = RKilled) /\ rec_of s' t = None
-     \/ r = ROk /\ (if rok then rec_of s' t = Some (Hx (task_fp t f0)) else rec_of s' t = None))
+     \/ r = ROk /\ (if negb force || v_force_records v then rec_of s' t = Some (Hx (task_fp t f0)) else rec_of s' t = None))
     /\ (forall t', rkey t <> rkey t' -> rec_of s' t' = rec_of s t').
   Proof.
-    intros now f0 rok s tid t o s' r Hsrc Hm Hnone E.
+    intros now f0 force s tid t o s' r Hsrc Hm Hnone E.
+    set (rok := negb force || v_force_records v) in *.
     assert (Hok : forall s1, same_store s s1 ->
-              ((if rok then record matchb H Hx v now f0 s1 t else s1), ROk) = (s', r) ->
+              (after_success matchb H Hx v now f0 force s1 t, ROk) = (s', r) ->
               ((r = RFailed \/ r = RKilled) /\ rec_of s' t = None
                \/ r = ROk /\ (if rok then rec_of s' t = Some (Hx (task_fp t f0)) else rec_of s' t = None))
               /\ (forall t', rkey t <> rkey t' -> rec_of s' t' = rec_of s t')).
-    { intros s1 Hss E1. inversion E1; subst. clear E1. split.
+    { intros s1 Hss E1. unfold after_success in E1. rewrite Hsafe in E1. fold rok in E1.
+      inversion E1; subst. clear E1. split.
       - right. split; auto. destruct rok.
         + now apply rec_record_same.
         + now rewrite (rec_of_same_store _ _ _ Hss).
@@ -213,9 +205,9 @@ Section Safe.
     intros now s m tid t o s' r Hsrc Hm Hmode E. unfold run_task in E.
     set (dry := match m with Dry => true | _ => false end) in *.
     set (force := match m with Force => true | _ => false end) in *.
-    assert (Eup : (if force then (false, s) else uptodate v dry now s t)
+    assert (Eup : (if force then (false, s) else uptodate v (dry || v_safe v) now s t)
                   = ((if force then false else up_formula s t), s)).
-    { destruct force; auto. now apply uptodate_safe. }
+    { destruct force; auto. rewrite Hsafe, orb_true_r. now apply uptodate_safe. }
     rewrite Eup in E. clear Eup.
     destruct (if force then false else up_formula s t) eqn:Eu.
     - (* skipped *)
@@ -236,13 +228,13 @@ Section Safe.
         destruct (t_prompt t && is_prompt_no o).
         * (* declined *)
           inversion E; subst. clear E. apply RS_bad; auto.
-          -- destruct (v_prompt_rollback v); [now apply rec_on_error_same | apply rec_invalidate_same].
+          -- destruct (v_prompt_rollback v); [now apply rec_on_error_same | now apply rec_invalidate_same].
           -- intros t' Hk. destruct (v_prompt_rollback v).
              ++ rewrite rec_on_error_other by auto. now apply rec_invalidate_other.
              ++ now apply rec_invalidate_other.
         * cbn [andb] in E.
           assert (Hnone : rec_of (mkdir (invalidate v s t) (t_dir t)) t = None).
-          { rewrite (rec_of_same_store (invalidate v s t)) by apply same_store_mkdir. apply rec_invalidate_same. }
+          { rewrite (rec_of_same_store (invalidate v s t)) by apply same_store_mkdir. now apply rec_invalidate_same. }
           pose proof (run_cmds_summary _ _ _ _ _ _ _ _ _ Hsrc Hm Hnone E) as [Hr Hoth].
           assert (Hoth' : forall t', rkey t <> rkey t' -> rec_of s' t' = rec_of s t').
           { intros t' Hk. rewrite Hoth by auto.
